@@ -75,6 +75,24 @@ CHECKS.update({
     ),
 })
 
+CHECKS.update({
+    "C05": dict(
+        technique="exhaustive/boundary enumeration of every alias x endian x value against int.from_bytes/struct/codecs/reference LEB128, with an alias table derived from the names; Hypothesis operation histories (load, flip endian, parse, dump) against the reference under the current endianness",
+        text="every name of the built-in type table is checked against a width/signedness table written from the names, with all values for 8-bit (16-bit in thorough) types and boundary/pseudo-random values beyond, in both directions; generated histories flip cs.endian between uses of scalars, arrays and (compiled) structures",
+        design_ref="DESIGN.md §4 C05",
+    ),
+    "C12": dict(
+        technique="property-based testing: Hypothesis enum/flag declarations (expressions, aliases, gaps, all underlying types, both parsers) x exhaustive 8-bit / sampled wider underlying values x contexts, against reference C numbering and integer identities",
+        text="generated declarations are checked for C auto-numbering (reference evaluator for member expressions) and, for every underlying value of 8-bit types and sampled values beyond, for value preservation, dump fidelity, int equality, class-scoped equality and hash stability, as scalar, array element, null-terminated array, bit-field and struct field in both readers",
+        design_ref="DESIGN.md §4 C12",
+    ),
+    "C19": dict(
+        technique="property-based testing: independent parser of the hexdump layout, ANSI-stripping metamorphic relation for palettes, dumpstruct containment checks on generated parsed structures, round-trip/differential checks of pack/unpack/swap against int.to_bytes; exhaustive helper table",
+        text="generated byte strings/offsets/prefixes/palettes are parsed back by an independent reader of the documented layout; coloured output must equal uncoloured output after stripping ANSI codes; dumpstruct must contain the hex dump of the structure's bytes and list every field; integer helpers are compared with int.to_bytes/from_bytes over all endian spellings",
+        design_ref="DESIGN.md §4 C19",
+    ),
+})
+
 NOT_YET = {}
 
 
